@@ -225,6 +225,29 @@ class SuperSpeedStreamInEndpoint(Elaboratable):
             handshakes_out.endpoint_number  .eq(self._endpoint_number),
         ]
 
+        # The buffer we're filling holds a complete packet once it can't accept any more data (it's full,
+        # or the stream has ended in it); which includes the word that's being accepted right now.
+        packet_complete   = (write_fill_count + 4 >= self._max_packet_size)
+        write_buffer_done = ~in_stream.ready | (buffer_write.en & (packet_complete | in_stream.last))
+
+        # If we want to start -sending- from that buffer right away, its first word must already be in memory:
+        # so the only word that may still be arriving is the final word of a full-size, multi-word packet.
+        if buffer_depth > 1:
+            write_buffer_sendable = ~in_stream.ready | (buffer_write.en & packet_complete)
+        else:
+            write_buffer_sendable = ~in_stream.ready
+
+
+        def swap_buffers():
+            """ Makes the buffer we've been filling our read buffer; and starts filling the other one. """
+            m.d.ss += [
+                ping_pong_toggle   .eq(~ping_pong_toggle),
+
+                # Mark the buffer we'll fill next as no longer containing the end of a stream.
+                read_stream_ended  .eq(0)
+            ]
+
+
         def respond_to_in_token():
             """ Answers an IN token when we have something to send. """
 
@@ -265,33 +288,21 @@ class SuperSpeedStreamInEndpoint(Elaboratable):
                     m.d.comb += handshakes_out.send_nrdy  .eq(1)
                     m.d.ss   += erdy_required             .eq(1)
 
-                # If we have valid data that will end our packet, we're no longer waiting for data.
+                # Once the buffer we're filling holds a complete packet, we're no longer waiting for data.
                 # We'll now wait for the host to request data from us.
-                packet_complete = (write_fill_count + 4 >= self._max_packet_size)
-                will_end_packet = packet_complete | in_stream.last
+                with m.If(write_buffer_done):
 
-                with m.If(in_stream.valid & will_end_packet):
+                    # We're now ready to take the data we've captured and _transmit_ it.
+                    swap_buffers()
 
-                    # If we've just finished a packet, we now have data we can send!
-                    with m.If(packet_complete | in_stream.last):
-                        m.d.ss += [
+                    # If we've already sent an NRDY token, we'll need to request an IN token
+                    # before the host will be willing to send us one.
+                    with m.If(erdy_required | in_token_received):
+                        m.next = "REQUEST_IN_TOKEN"
 
-                            # We're now ready to take the data we've captured and _transmit_ it.
-                            # We'll swap our read and write buffers.
-                            ping_pong_toggle.eq(~ping_pong_toggle),
-
-                            # Mark our current stream as no longer having ended.
-                            read_stream_ended  .eq(0)
-                        ]
-
-                        # If we've already sent an NRDY token, we'll need to request an IN token
-                        # before the host will be willing to send us one.
-                        with m.If(erdy_required | in_token_received):
-                            m.next = "REQUEST_IN_TOKEN"
-
-                        # Otherwise, we can wait for an IN token directly.
-                        with m.Else():
-                            m.next = "WAIT_TO_SEND"
+                    # Otherwise, we can wait for an IN token directly.
+                    with m.Else():
+                        m.next = "WAIT_TO_SEND"
 
 
             # REQUEST_IN_TOKEN -- we now have at least a buffer full of data to send; but
@@ -456,12 +467,8 @@ class SuperSpeedStreamInEndpoint(Elaboratable):
                         # for us in our "write buffer", which we've been filling in the background.
                         # If this is the case, we'll flip which buffer we're working with, and then
                         # ready ourselves for transmit.
-                        packet_completing = in_stream.valid & (write_fill_count + 4 >= self._max_packet_size)
-                        with m.Elif(~in_stream.ready | packet_completing):
-                            m.d.ss += [
-                                ping_pong_toggle   .eq(~ping_pong_toggle),
-                                read_stream_ended  .eq(0),
-                            ]
+                        with m.Elif(write_buffer_sendable):
+                            swap_buffers()
 
                             with m.If(is_in_token):
                                 m.d.ss += [
